@@ -25,6 +25,14 @@ Panicking == {c \in Cases : c.method = PanicMethod}
 Executing == {"eth_call", "eth_callMany", "eth_estimateGas", "eth_estimateGasMany", "brc20_balance", "brc20_deploy", "brc20_call",
               "brc20_transact", "brc20_deposit", "brc20_withdraw", "brc20_initialise"}
 
+(* Below the JSON-RPC layer: what arrives on the socket need not be one well-formed request.  The frame classes are sent to  *)
+(* a server started by the public start(); the transport may answer with an HTTP error or close the connection, but the    *)
+(* engine behind it must keep answering (the same Alive probe).  Limits: BatchLimit calls per batch, MaxBody bytes.         *)
+Frames == {"empty_body", "not_json", "non_utf8", "truncated_json", "deep_nesting", "batch_empty", "batch_at_limit", "batch_over_limit",
+           "batch_huge", "body_at_limit", "body_over_limit", "length_longer_than_body", "length_shorter_than_body", "no_length",
+           "wrong_content_type", "get", "put", "garbage_request_line", "huge_header", "chunked", "pipelined_two", "id_types",
+           "duplicate_keys", "params_by_name_for_positional", "version_1_0", "slow_loris_partial"}
+
 VARIABLES slot,     \* "present" | "taken": is the database in its slot?
           last,     \* outcome of the last request: "response" | "panic" | "none"
           emitted
@@ -37,6 +45,7 @@ Init == slot = "present" /\ last = "none" /\ emitted = FALSE
 Emit ==
   /\ ~emitted
   /\ \A c \in Cases : PrintT(<<"CASE", ToJson(c)>>)
+  /\ \A f \in Frames : PrintT(<<"FRAME", f>>)
   /\ emitted' = TRUE /\ UNCHANGED <<slot, last>>
 
 Request(c) ==
